@@ -96,6 +96,28 @@ static void ct_call(const Args &a) {
         ascon_random_state_t st; ascon_random_init(&st); ascon_random_feed(&st, ms.p, ms.n); ascon_random_fetch(&st, out.p, outlen);
         ascon_random_reseed(&st); ascon_random_fetch(&st, out.p, outlen); ascon_random_free(&st); olen = outlen;
     }
+    else if (fn.compare(0, 4, "cpp:") == 0) {
+        // the C++ cipher classes: construct with a secret key, replace it (set_key) by a second secret key that
+        // shares a prefix with the first or equals it, refresh (masked classes), encrypt a secret message, clear
+        std::string cls = fn.substr(4); ascon::aead *c = 0; ascon::aead_masked *cm = 0;
+        Sec k2(x);                 // x = the second key (secret)
+        if (cls == "aead128") c = new ascon::aead128(ks.p); else if (cls == "aead128a") c = new ascon::aead128a(ks.p);
+        else if (cls == "aead80pq") c = new ascon::aead80pq(ks.p); else if (cls == "siv128") c = new ascon::siv128(ks.p);
+        else if (cls == "siv128a") c = new ascon::siv128a(ks.p); else if (cls == "siv80pq") c = new ascon::siv80pq(ks.p);
+        else if (cls == "isap128") c = new ascon::isap128(ks.p, ks.n); else if (cls == "isap128a") c = new ascon::isap128a(ks.p, ks.n);
+        else if (cls == "isap80pq") c = new ascon::isap80pq(ks.p, ks.n);
+        else if (cls == "aead128_masked") c = cm = new ascon::aead128_masked(ks.p);
+        else if (cls == "aead128a_masked") c = cm = new ascon::aead128a_masked(ks.p);
+        else if (cls == "aead80pq_masked") c = cm = new ascon::aead80pq_masked(ks.p);
+        else fatal("ct.call class %s", cls.c_str());
+        c->set_nonce(nb.p, nb.n);
+        bool ok = c->set_key(k2.p, k2.n);
+        if (cm) cm->randomize_key();
+        int r = c->encrypt(out.p, ms.p, ms.n, adb.p, adb.n);
+        c->clear(); delete c;
+        defined(&ok, sizeof ok); defined(&r, sizeof r);
+        ret = (ok && r == (int)ms.n + 16) ? 0 : -1; olen = ms.n + 16;
+    }
     else if (fn == "prng_seed") {  // k = system seed, m = the seed saved in non-volatile storage (both secret)
         std::vector<std::pair<int, bytes_t> > src; src.push_back(std::make_pair(1, k)); src.push_back(std::make_pair(1, k)); tape_set_src(src);
         ascon_storage_t stg; memset(&stg, 0, sizeof stg); stg.page_size = 1; stg.size = 64; stg.read = ct_read; stg.write = ct_write;
